@@ -552,4 +552,16 @@ theorem gen_packInfoParse (bs : Bytes) (h252 : bs.length = 252) :
       rfl
 
 
+theorem bind_ok_eta {α : Type} (x : Outcome (α × Bytes)) : (x.bind fun (r, bs) => Outcome.ok (r, bs)) = x := by
+  cases x <;> rfl
+
+/-- the fixed-width wrappers: `Count<u8|u16|u32|u64>::parse`, `Size::parse`, `Offset::parse`, translated on every run,
+    are little-endian reads of 1, 2, 4, 8, 8 and 8 bytes — what the tables of the other targets write for a call to
+    them (`takeLE bs w`). -/
+theorem gen_fixedWidthParsers (bs : Bytes) :
+    Generated.countU8Parse bs = takeLE bs 1 ∧ Generated.countU16Parse bs = takeLE bs 2 ∧
+    Generated.countU32Parse bs = takeLE bs 4 ∧ Generated.countU64Parse bs = takeLE bs 8 ∧
+    Generated.sizeParse bs = takeLE bs 8 ∧ Generated.offsetParse bs = takeLE bs 8 :=
+  ⟨bind_ok_eta _, bind_ok_eta _, bind_ok_eta _, bind_ok_eta _, bind_ok_eta _, bind_ok_eta _⟩
+
 end Jubako
